@@ -12,6 +12,7 @@
    and per face by has_north_pole / has_south_pole (_pole_point_inside_polygon).
    Definitions only. *)
 From Verif Require Export Base.
+From Verif Require Import C14_consts C14.
 
 Record c13_box := {
   c13_lat_lo : Z; c13_lat_hi : Z;      (* face_latlon_array[0] *)
@@ -115,3 +116,73 @@ Definition c13_edge_ok (H : Z) (e : c13_edge) : Prop :=
   - H <= c13_emin e /\ c13_emin e <= c13_lat1 e /\ c13_emin e <= c13_lat2 e /\
   c13_lat1 e <= c13_emax e /\ c13_lat2 e <= c13_emax e /\ c13_emax e <= H /\
   c13_lon1 e <> FILL.
+
+(* ------------------------------------------------------------------------------------------ *)
+(* pole containment as coded: _classify_polygon_location, the reference arcs pole -> REFERENCE_POINT_EQUATOR = (1,0,0),
+   _check_intersection (intersections of the reference arc with every edge through the C14 model of
+   gca_gca_intersection; a hit at the pole returns True = 1; unique points; a single unique hit that coincides with a
+   node counts 0) and _pole_point_inside_polygon (parity; 'Equator' location: both reference arcs against every edge,
+   since f56f1f5f).  Faces are lists of edges of integer direction vectors.  allclose(point, node) is idealised to
+   "same direction".  None = the code raises.  c13_pole_in_face is the exact specification for a convex
+   counter-clockwise face: the pole is strictly on the inner side of every edge. *)
+Definition c13_same_dir (u v : c14_vec) : bool := c14_is0 (c14_cross u v) && (0 <? c14_dot u v).
+
+Fixpoint c13_uniq (l : list c14_vec) : list c14_vec :=
+  match l with
+  | [] => []
+  | x :: r => x :: filter (fun y => negb (c13_same_dir x y)) (c13_uniq r)
+  end.
+
+Definition c13_fedge := (c14_vec * c14_vec)%type.
+
+Definition c13_NPOLE : c14_vec := (0, 0, 1).
+Definition c13_SPOLE : c14_vec := (0, 0, -1).
+Definition c13_REF : c14_vec := (1, 0, 0).
+
+Fixpoint c13_collect (pole : c14_vec) (edges : list c13_fedge) (acc : list c14_vec) : option (bool * list c14_vec) :=
+  match edges with
+  | [] => Some (false, acc)
+  | (a, b) :: es =>
+      match c14_gca_gca pole c13_REF a b with
+      | None => None
+      | Some l => if existsb (c13_same_dir pole) l then Some (true, acc) else c13_collect pole es (acc ++ l)
+      end
+  end.
+
+Definition c13_check_intersection (pole : c14_vec) (edges : list c13_fedge) : option Z :=
+  match c13_collect pole edges [] with
+  | None => None
+  | Some (true, _) => Some 1
+  | Some (false, pts) =>
+      let u := c13_uniq pts in
+      match u with
+      | [p] => if existsb (fun e => c13_same_dir p (fst e) || c13_same_dir p (snd e)) edges then Some 0 else Some 1
+      | _ => Some (Z.of_nat (length u))
+      end
+  end.
+
+Inductive c13_loc := c13_North | c13_South | c13_Equator.
+Definition c13_location (edges : list c13_fedge) : c13_loc :=
+  if forallb (fun e => (0 <? c14_z (fst e)) && (0 <? c14_z (snd e))) edges then c13_North
+  else if forallb (fun e => (c14_z (fst e) <? 0) && (c14_z (snd e) <? 0)) edges then c13_South
+  else c13_Equator.
+
+Definition c13_pole_inside (north : bool) (edges : list c13_fedge) : option bool :=
+  let pole := if north then c13_NPOLE else c13_SPOLE in
+  match c13_location edges, north with
+  | c13_North, true | c13_South, false =>
+      match c13_check_intersection pole edges with None => None | Some k => Some (negb (k mod 2 =? 0)) end
+  | c13_Equator, _ =>
+      match c13_check_intersection pole edges, c13_check_intersection (c14_neg pole) edges with
+      | Some k1, Some k2 => Some (negb ((k1 + k2) mod 2 =? 0))
+      | _, _ => None
+      end
+  | _, _ => Some false
+  end.
+
+Definition c13_cycle (vs : list c14_vec) : list c13_fedge :=
+  match vs with [] => [] | x :: r => combine vs (r ++ [x]) end.
+
+Definition c13_pole_in_face (pole : c14_vec) (edges : list c13_fedge) : bool :=
+  forallb (fun e => 0 <? c14_triple (fst e) (snd e) pole) edges.
+
